@@ -54,8 +54,9 @@ func (ir *IntrospectionResolver) resolveSchema(schema *ast.Schema, selectionSet 
 		switch f.Name {
 		case "types":
 			types := []map[string]interface{}{}
-			for _, t := range schema.Types {
-				types = append(types, ir.resolveType(schema, &ast.Type{NamedType: t.Name}, f.SelectionSet))
+			// in the order of the names, whether the name is selected or not
+			for _, name := range sortedKeys(schema.Types) {
+				types = append(types, ir.resolveType(schema, &ast.Type{NamedType: schema.Types[name].Name}, f.SelectionSet))
 			}
 			sortPayload(types)
 			result[f.Alias] = types
@@ -67,8 +68,8 @@ func (ir *IntrospectionResolver) resolveSchema(schema *ast.Schema, selectionSet 
 			result[f.Alias] = ir.resolveType(schema, &ast.Type{NamedType: "Subscription"}, f.SelectionSet)
 		case "directives":
 			directives := []map[string]interface{}{}
-			for _, d := range schema.Directives {
-				directives = append(directives, ir.resolveDirective(schema, d, f.SelectionSet))
+			for _, name := range sortedKeys(schema.Directives) {
+				directives = append(directives, ir.resolveDirective(schema, schema.Directives[name], f.SelectionSet))
 			}
 			sortPayload(directives)
 			result[f.Alias] = directives
@@ -343,6 +344,15 @@ func resolveEnumValue(enum *ast.EnumValueDefinition, selectionSet ast.SelectionS
 	}
 
 	return result
+}
+
+func sortedKeys[V any](m map[string]V) []string {
+	keys := make([]string, 0, len(m))
+	for k := range m {
+		keys = append(keys, k)
+	}
+	sort.Strings(keys)
+	return keys
 }
 
 func sortPayload(payload []map[string]interface{}) {
